@@ -326,15 +326,26 @@ func sigScriptFor(r *core.Rand) ([]byte, string) {
 // ---------------------------------------------------------------- generators
 
 func (P) Generate(g *core.Gen) {
-	genMerkle(g, g.R.Fork())
-	genCommit(g, g.R.Fork())
-	genWeight(g, g.R.Fork())
-	genSigops(g, g.R.Fork())
-	genHeight(g, g.R.Fork())
-	genFinal(g, g.R.Fork())
-	genSeqLock(g, g.R.Fork())
-	genHardening(g, g.R.Fork())
-	genRound3(g, g.R.Fork())
+	// a generator that calls into a (possibly mutated) tree must not take the harness down: a
+	// panic while generating becomes a case that Go and Lean answer differently
+	run := func(name string, f func(*core.Gen, *core.Rand)) {
+		r := g.R.Fork()
+		defer func() {
+			if e := recover(); e != nil {
+				g.Case("generator-panic", true, "C13 genpanic "+name)
+			}
+		}()
+		f(g, r)
+	}
+	run("merkle", genMerkle)
+	run("commit", genCommit)
+	run("weight", genWeight)
+	run("sigops", genSigops)
+	run("height", genHeight)
+	run("final", genFinal)
+	run("seqlock", genSeqLock)
+	run("hardening", genHardening)
+	run("round3", genRound3)
 }
 
 func genMerkle(g *core.Gen, r *core.Rand) {
@@ -1189,13 +1200,14 @@ func grind(root []byte) uint32 {
 	var h chainhash.Hash
 	copy(h[:], root)
 	target := blockchain.CompactToBig(0x207fffff)
-	for n := uint32(0); ; n++ {
+	for n := uint32(0); n < 1<<16; n++ {
 		hdr := sanityHeader(h, n)
 		bh := hdr.BlockHash()
 		if blockchain.HashToBig(&bh).Cmp(target) <= 0 {
 			return n
 		}
 	}
+	return 0 // a tree where nothing meets the regtest target: the case then shows the difference
 }
 
 func genSanity(g *core.Gen, r *core.Rand) {
